@@ -112,10 +112,10 @@ int main(void)
                     'More-Thuente step kernel dcstep (real body, its cubic / quadratic / secant calls inlined mechanically) equals MINPACK-2 dcstep over the reals (mt/dcstep, reference transcribed from the Fortran): the four cases and their choice rules between the cubic and the quadratic / secant step, the case-3 rule (cubic step only if it lies beyond stp, else stpmax / stpmin; closer one + safeguard stp + delta*(sty-stp) when bracketed; farther one clamped to [stpmin, stpmax] otherwise) for a positive and for a negative discriminant, case 4, the bracket update, brackt\' = brackt or case 1 or case 2, the frame; the divisions / sqrt the code executes are defined wherever the reference\'s are. Stated deviations: delta is a parameter (MINPACK: 0.66), no overflow scaling inside the sqrt, discriminant exactly 0 in case 3 (the code may keep the cubic step where MINPACK falls back to the bound: witness checked), no final clamp in dcstep (that is MINPACK-1 cstep; MINPACK-2 and the code clamp in the caller)',
                     'More-Thuente do_get against MINPACK-2 dcsrch, one arbitrary iteration of the real loop body over the reals (mt/do_get): the START block; stage\' = 2 iff stage = 2 or (psi(stp) <= 0 and phi\'(stp) >= 0) with psi(t) = phi(t) - phi(0) - c1 t phi\'(0) (the code\'s `f <= ftest && g >= 0` IS that condition: an independently seeded change that drops the slope conjunct, seed C07-1, is refuted by mt/do_get/stage_at_interpolation); dcstep is called exactly once per continuing iteration, on the modified function (f - stp*gtest, g - gtest, ...) exactly when stage\' = 1, psi(stp) > 0 and f <= fx, on phi otherwise, with [stmin, stmax] and delta; the bracket values are mapped back afterwards; bisection when the bracket did not shrink by 0.66, width / width1, stmin / stmax (1.1 / 4 extrapolation), clamp to [stpmin, stpmax], fallback to stx: the evaluated step is the reference\'s. Stated deviations: give-up exits return failure (not a warning with a usable step), `>=` / `<=` for `==` at the bounds, convergence tested first',
                     'More-Thuente on a convex quadratic, loop level (mt/do_get/convexq_second_trial, real loop body, dcstep through its proved clauses mt/dcstep/contract_*): in the FIRST iteration, if t0 does not pass the convergence test and overshoots (dcstep case 1 or 2), the minimiser of the interpolated function (phi, or the modified function) lies in [stpmin, stpmax], t0 < 1.32 (stpmax - stpmin) and epsilon0 < 1, then the step evaluated next is EXACTLY that minimiser (no bisection, no clamp, no fallback to stx interferes); by convexq/dcstep_phi|psi/armijo_strong_wolfe it passes the convergence test at the top of the second iteration (needs max_iterations >= 2 and a valid evaluation)',
-                    'backtracking on a convex quadratic, loop level (convexq/backtrack_do_get, real loop body, every evaluation returns phi): whenever Armijo fails at the current step t, the interpolation mode is cubic or quadratic and the exact minimiser lies inside the safeguarded interval [safeguard*t, (1-safeguard)*t], the next evaluated step IS the exact minimiser and, for c1 <= 1/2, Armijo holds at that trial state, so the test at the top of the next iteration returns success; interpolate enters through its clause convexq/interpolate/exact (cubic / quadratic mode on two distinct samples of a convex quadratic returns the exact minimiser)',
+                    'backtracking, LeMarechal, Fletcher zoom and Fletcher\'s bracketing phase on a convex quadratic, loop level (convexq/backtrack_do_get, convexq/lemarechal_do_get, convexq/fletcher_zoom, convexq/fletcher_do_get: the real loop bodies, every evaluation returns phi, "every lsearch_step_t the search keeps is a sample (t, phi(t), phi\'(t))" is an inductive invariant of the real code): at EVERY `clamp(interpolate(u, v, mode), lo, hi)` site, in cubic or quadratic mode, the two steps are distinct and, if the exact minimiser lies inside [lo, hi], the step evaluated next IS the exact minimiser; at that trial state Armijo (for c1 <= 1/2) and strong Wolfe (hence Wolfe) hold, which is what the acceptance test of the next iteration (backtracking, LeMarechal, Fletcher) or of the same iteration (zoom) evaluates; interpolate enters through its clause convexq/interpolate/exact (cubic / quadratic mode on two distinct samples of a convex quadratic returns the exact minimiser)',
                     'dcstep on a convex quadratic (convexq/dcstep_phi, convexq/dcstep_psi): handed samples of phi, or of the modified function (also a convex quadratic, linear coefficient (1-c1) b), cases 1 and 2 return the exact minimiser of the sampled quadratic, case 3 returns it unless a bound or the safeguard cuts it, case 4 cannot occur; that step is > 0 and passes the convergence test of More-Thuente (Armijo + strong Wolfe for phi): for samples of phi when c1 <= 1/2, for samples of the modified function for EVERY 0 < c1 < c2 < 1 (phi\' there is c1*b)',
                     'More-Thuente and CG_DESCENT: success => the advertised conditions hold on the returned point -- More-Thuente: Armijo + strong Wolfe as formulas over the value and slope of the returned state (every return site, over the reals); CG_DESCENT: success is interval_t::converged(), i.e. valid state and (Armijo, Wolfe) or (approximate Armijo, approximate Wolfe) evaluated true on the returned state with the returned step (both were refuted before the repairs 297525f / e2bae93, see known_findings.txt)'],
-        'not_decided': ['success on convex quadratics as a statement about the whole searches: decided are the single interpolation steps (exact minimiser, which passes Armijo for c1 <= 1/2 / strong Wolfe; dcstep cases 1-3) and, for More-Thuente, the two-evaluation scenario after an overshooting first trial; an undershooting first trial (dcstep case 3: extrapolation by at most stmax = stp + 4 (stp - stx) per iteration) needs about log_5(t*/t0) further iterations, so success depends on max_iterations (with max_iterations = 1 no interpolated point is ever tested: the last evaluated point of every search is returned as a failure without being tested); NOT decided: that the safeguards around them (clamp to [safeguard*t, (1-safeguard)*t] in backtracking -- when the clamp cuts the exact step the search goes on with a cut step, not decided further --, the analogous scenarios for LeMarechal / Fletcher (their brackets L, R / lo, hi need sample invariants), extrapolation by tau1 / 3, bisection + [stmin, stmax] + clamp + fallback in More-Thuente, the theta rule and the secant^2 step of CG_DESCENT) leave the exact step alone or converge within max_iterations anyway; for c1 > 1/2 the exact minimiser violates Armijo, so success there needs further iterations',
+        'not_decided': ['success on convex quadratics as a statement about the whole searches: decided are the single interpolation steps (exact minimiser, which passes Armijo for c1 <= 1/2 / strong Wolfe; dcstep cases 1-3) and, for More-Thuente, the two-evaluation scenario after an overshooting first trial; an undershooting first trial (dcstep case 3: extrapolation by at most stmax = stp + 4 (stp - stx) per iteration) needs about log_5(t*/t0) further iterations, so success depends on max_iterations (with max_iterations = 1 no interpolated point is ever tested: the last evaluated point of every search is returned as a failure without being tested); NOT decided: that the safeguards around them (clamp to [safeguard*t, (1-safeguard)*t] in backtracking / LeMarechal / Fletcher: when the clamp cuts the exact step the search goes on with a cut step, not decided further; bisection mode is not exact at all), extrapolation by tau1 / 3, bisection + [stmin, stmax] + clamp + fallback in More-Thuente, the theta rule and the secant^2 step of CG_DESCENT) leave the exact step alone or converge within max_iterations anyway; for c1 > 1/2 the exact minimiser violates Armijo, so success there needs further iterations',
                         'dcstep: inputs with dx = 0 (sgnd = dp*(dx/|dx|) is NaN in IEEE: no real-model meaning), inputs where the reference\'s own quantities are undefined (stp = stx, zero denominators), and case 3 with a discriminant of exactly 0 (deviation, see decided)',
                         'More-Thuente: positivity of the returned step (the fallback `stp = stx` may hand back the origin; excluding it needs the numerics of dcstep)',
                         'CG_DESCENT: positivity of the returned step (secant / theta-combination numerics); its finiteness follows only by composition (success = converged() => valid tentative state at interval.step_size) because do_get is composed over the reals',
@@ -133,7 +133,7 @@ int main(void)
                         'the reference algorithm (MINPACK-2 dcsrch / dcstep, More & Thuente 1994) is transcribed by hand from the Fortran text into mt_smt.py (reference(), do_get_reference(), do_get_next()) without the overflow scaling s = max(|theta|, |dx|, |dp|); the Fortran constants 0.66d0 and 1.1d0 are the same IEEE doubles as the C++ literals',
                         'mt/do_get/convexq_second_trial assumes on the arbitrary results of the dcstep call exactly the clauses proved for the real dcstep as mt/dcstep/contract_bracket / contract_brackt / contract_quadratic (one python function, contract_clauses, generates the proved and the assumed form); scenario hypotheses: epsilon0 < 1 and t0 < 1.32 (stpmax - stpmin)',
                         'mt/dcstep case*_step is a cut: kernel lemmas at the call sites + the choice rule over opaque kernel results (textual replacement of the inlined kernel terms by constants); the composition (substitute the kernel term for the constant) is by construction; the monolithic equalities are checked in the thorough tier (case*_step_monolithic)',
-                        'convexq/interpolate/exact restates the selection proved by lstep_interpolate_select (back end A, IEEE) over the reals with isfinite(kernel result) := "the kernel is defined" and applies it to the extracted kernel terms (correspondence of the two statements of the selection: by inspection); convexq/backtrack_do_get assumes that clause on the arbitrary result of interpolate (same python function interpolate_clause for the proved and the assumed form), uses has_armijo as its formula proved in pred/has_armijo, and models "the objective is the quadratic" by letting lsearchk_t::update return phi(t), phi\'(t)',
+                        'convexq/interpolate/exact restates the selection proved by lstep_interpolate_select (back end A, IEEE) over the reals with isfinite(kernel result) := "the kernel is defined" and applies it to the extracted kernel terms (correspondence of the two statements of the selection: by inspection); the loop-level scenarios convexq/<search> assume that clause on the arbitrary result of interpolate (same python function interpolate_clause for the proved and the assumed form), use has_armijo / has_wolfe / has_strong_wolfe as the formulas proved in pred/, and model "the objective is the quadratic" by letting lsearchk_t::update return phi(t), phi\'(t)',
                         'mt/do_get looks at ONE arbitrary iteration from an arbitrary loop-head state with stage in {1, 2} (inductive invariant) and at the prefix; the give-up / convergence exits are not compared with dcsrch beyond what advertised/morethuente_do_get proves',
                         'the ghost records of the approximate predicates (nv_cgd) are not part of the frame of the virtual do_get contract used by lsearchk_t::get (they are specification-only objects)'],
         'trusted': [],
